@@ -162,6 +162,9 @@ fn run_set(ctx: &Ctx, gf: &Gf, seed: u64, idx: u64, st: &Stats) {
         let mut d2 = d1.clone();
         let clone_at = rng.below(hist.len() as u64 + 1) as usize;
         let mut d3: Option<Decoder> = None;
+        // fourth observer: the two entry points mixed on one decoder (choice per packet)
+        let mut d4 = d1.clone();
+        let mut mix_rng = Rng::derive(seed, 0x0848, idx * 64 + hi as u64);
         let mut oracle = SetOracle::new(gf, &ks);
         let mut first: Option<Vec<u8>> = None;
         let mut dup_after = 0u64;
@@ -178,10 +181,16 @@ fn run_set(ctx: &Ctx, gf: &Gf, seed: u64, idx: u64, st: &Stats) {
                 d2.add_new_packet(p.clone());
                 let b = d2.get_result();
                 let c3 = d3.as_mut().map(|d| d.decode(p.clone()));
-                (a, b, c3)
+                let m = if mix_rng.chance(1, 2) {
+                    d4.decode(p.clone())
+                } else {
+                    d4.add_new_packet(p.clone());
+                    d4.get_result()
+                };
+                (a, b, c3, m)
             });
             st.calls.fetch_add(1, Relaxed);
-            let (a, b, c3) = match r {
+            let (a, b, c3, m4) = match r {
                 Ok(x) => x,
                 Err(m) => {
                     ctx.violation(sig("decoder-panic", hi), format!("{:?}: decoder panicked at call {i} (SBN={z},ESI={e}, duplicate={was_dup}) of history {hi}: {}", s, short(&m, 120)), replay());
@@ -191,6 +200,10 @@ fn run_set(ctx: &Ctx, gf: &Gf, seed: u64, idx: u64, st: &Stats) {
             // (3) interface agreement
             if a != b {
                 ctx.violation(sig("interfaces-disagree", hi), format!("{:?}: at call {i} of history {hi} decode() returned {:?} but add_new_packet()+get_result() returned {:?} (lengths)", s, a.as_ref().map(|v| v.len()), b.as_ref().map(|v| v.len())), replay());
+                return;
+            }
+            if m4 != a {
+                ctx.violation(sig("mixed-interfaces-disagree", hi), format!("{:?}: at call {i} of history {hi} a decoder fed through decode() only answers {:?} but a decoder fed the same packets through a mix of decode() and add_new_packet()+get_result() answers {:?} (lengths)", s, a.as_ref().map(|v| v.len()), m4.as_ref().map(|v| v.len())), replay());
                 return;
             }
             // (4) clone continues exactly like the original
@@ -339,7 +352,7 @@ pub fn run(ctx: &Ctx) -> i32 {
         ctx.nontrivial(2);
         return ctx.finish("replay of one recorded packet set (all its histories)", &[], vec![]);
     }
-    let n = ctx.args.ex_u64("n", ctx.args.pick(2000, 40000)) as usize;
+    let n = ctx.args.ex_u64("n", ctx.args.pick(12000, 120000)) as usize;
     par_for(n, |i| {
         if ctx.too_many_violations() {
             return;
@@ -362,7 +375,7 @@ pub fn run(ctx: &Ctx) -> i32 {
     ctx.floor("block_level_batchings_compared", st.batchings.load(Relaxed), if q { 500 } else { 1 });
     ctx.floor("double_count_traps_(K-1_distinct_source_+_duplicate)", st.trap.load(Relaxed), if q { 500 } else { 1 });
     ctx.finish(
-        "packet set = distinct (SBN,ESI) ids of a generated case (Z up to 8, K up to 60, loss 0-70 %, repair ESIs over the 24-bit range, all three sparse thresholds); per set 8-30 delivery histories (orders: as generated / reversed / sorted / round-robin over blocks / shuffled; each packet repeated 0-3x immediately or later; 5-50 re-deliveries after the end; new packets after completion; the K-1-distinct-source-plus-duplicate trap first). Trace checker after EVERY call: decode() = add_new_packet()+get_result() = clone taken at a random point; answer is Some iff every block's distinct received set is decodable (all source present or rank oracle of C02); once Some, always the identical bytes = the object. Block level: packet-by-packet = random batches = one shot, at every batch boundary. non-trivial = history with at least one duplicate delivered after completion; distinct by history hash",
+        "packet set = distinct (SBN,ESI) ids of a generated case (Z up to 8, K up to 60, loss 0-70 %, repair ESIs over the 24-bit range, all three sparse thresholds); per set 8-30 delivery histories (orders: as generated / reversed / sorted / round-robin over blocks / shuffled; each packet repeated 0-3x immediately or later; 5-50 re-deliveries after the end; new packets after completion; the K-1-distinct-source-plus-duplicate trap first). Trace checker after EVERY call: decode() = add_new_packet()+get_result() = a decoder fed through a random mix of both entry points = clone taken at a random point; answer is Some iff every block's distinct received set is decodable (all source present or rank oracle of C02); once Some, always the identical bytes = the object. Block level: packet-by-packet = random batches = one shot, at every batch boundary. non-trivial = history with at least one duplicate delivered after completion; distinct by history hash",
         &["rank oracle of C02 (independent RFC model) as the reference for what a set determines"],
         vec![],
     )
